@@ -152,10 +152,10 @@ func defaultKeys(n int, base int64) []*big.Int {
 
 // ---------- EdDSA keygen ----------
 type kgOpts struct {
-	keys    []*big.Int     // party keys (ids); nil = 1..n
-	ui      []*big.Int     // chosen partial secrets u_i (by sorted index); nil = deterministic random
-	coefs   [][]*big.Int   // chosen polynomial coefficients a_1..a_t per party
-	seed    string
+	keys  []*big.Int   // party keys (ids); nil = 1..n
+	ui    []*big.Int   // chosen partial secrets u_i (by sorted index); nil = deterministic random
+	coefs [][]*big.Int // chosen polynomial coefficients a_1..a_t per party
+	seed  string
 }
 
 func buildEdDSAKeygen(n, t int, o kgOpts) *runCtx {
@@ -247,11 +247,11 @@ func buildECDSAKeygen(n, t int, o kgOpts) *runCtx {
 // ---------- signing ----------
 type signOpts struct {
 	msg      *big.Int
-	fullLen  int            // 0 = absent
-	first    [][]*big.Int   // per signer: values for the first draws of Rand() (k_i, gamma_i / r_i), 32 bytes each
+	fullLen  int          // 0 = absent
+	first    [][]*big.Int // per signer: values for the first draws of Rand() (k_i, gamma_i / r_i), 32 bytes each
 	seed     string
-	kdd      *big.Int       // key derivation delta (ECDSA)
-	realRand bool           // leave the library's default entropy source (crypto/rand) in place
+	kdd      *big.Int // key derivation delta (ECDSA)
+	realRand bool     // leave the library's default entropy source (crypto/rand) in place
 }
 
 func sigDrain(end chan *common.SignatureData) func() []interface{} {
